@@ -59,6 +59,8 @@ def _interp(db):
             v = it.eval(fn, fn.stmts[n['args'][0]], env)
             if isinstance(v, Obj):
                 return it.call(db.fn(RANGE + '::empty'), [], v)
+            if isinstance(v, (list, bytes, bytearray)):
+                return len(v) == 0
             raise OutOfFragment('std::empty on non-range')
         return NOT_HANDLED
     return Interp(db, on_call=on_call)
@@ -125,7 +127,7 @@ def check(db, rep):
     rep.note('range_pairs_evaluated_per_method', len(pairs))
     rep.note('order_types_covered', len(ordertypes))
 
-    r1 = rep.rule('r1', 'INTERVAL-TABLE: each StrRange relation / Intersect / Merge step, evaluated on every order type of the end points, equals its end-point definition', 13)
+    r1 = rep.rule('r1', 'INTERVAL-TABLE: each StrRange relation / Intersect / Merge, evaluated on every order type of the end points, equals its end-point definition', 12)
     tables = {}
     for name, oracle in ORACLE.items():
         f = methods.get(name)
@@ -200,36 +202,29 @@ def check(db, rep):
         except OutOfFragment as e:
             r1.broken('StrRange::Overlaps outside the fragment: %s' % e)
 
-    # Merge step: the lambda inside Merge
+    # Merge: the whole function on every list of up to three ranges in a small window (no assumption about how it is written)
     mf = methods.get('Merge')
     if mf is None:
         r1.broken('anchor vanished: StrRange::Merge')
     else:
-        lams = db.lambdas_in(mf)
-        if len(lams) != 1:
-            r1.broken('StrRange::Merge: expected one accumulate step lambda, found %d' % len(lams))
-        else:
-            lf = lams[0]
-            try:
-                bad = None
-                for a, b in pairs:
-                    got = _interp(db).call(lf, [_mk(*a), _mk(*b)])
+        try:
+            spans = [(a_, b_) for a_ in range(0, 4) for b_ in range(a_, 4)]
+            badm = None
+            n_l = 0
+            for k_ in (0, 1, 2, 3):
+                for lst in itertools.product(spans, repeat=k_):
+                    n_l += 1
+                    got = _interp(db).call(mf, [[_mk(*x) for x in lst]])
                     got = (got['start'], got['finish']) if isinstance(got, Obj) else got
-                    want = (min(a[0], b[0]), max(a[1], b[1]))
-                    if got != want and bad is None:
-                        bad = (a, b, got, want)
-                if bad:
-                    r1.violation('Merge-step', '%s:%d' % (lf.file, lf.line), 'merging [%d,%d) into [%d,%d) gives %s, the smallest covering range is %s' % (bad[1][0], bad[1][1], bad[0][0], bad[0][1], bad[2], bad[3]))
-                else:
-                    r1.ok('Merge-step', 'accumulate step = [min starts, max finishes]', '%s:%d' % (lf.file, lf.line))
-                # the fold must start from the first element and cover the rest
-                callees = [n.get('cs') for n in mf.calls()]
-                if 'std::accumulate' in callees and 'std::next' in callees or 'next' in ' '.join(c or '' for c in callees):
-                    r1.ok('Merge-fold', 'std::accumulate over next(begin)..end seeded with *begin', '%s:%d' % (mf.file, mf.line), nontrivial=False)
-                else:
-                    r1.violation('Merge-fold', '%s:%d' % (mf.file, mf.line), 'Merge no longer folds the step over all elements (std::accumulate over next(begin(base))..end(base))')
-            except OutOfFragment as e:
-                r1.broken('Merge step outside the fragment: %s' % e)
+                    want = (min(x[0] for x in lst), max(x[1] for x in lst)) if lst else (0, 0)
+                    if got != want and badm is None:
+                        badm = (lst, got, want)
+            if badm:
+                r1.violation('Merge', '%s:%d' % (mf.file, mf.line), 'Merge(%s) gives %s, the smallest covering range is %s' % (list(badm[0]), badm[1], badm[2]))
+            else:
+                r1.ok('Merge', 'smallest covering range on %d lists of up to three ranges' % n_l, '%s:%d' % (mf.file, mf.line))
+        except OutOfFragment as e:
+            r1.broken('StrRange::Merge outside the fragment: %s' % e)
 
     # r4 derived relations on the tables
     r4 = rep.rule('r4', 'DERIVED: != is the negation of ==, IsAfter the dual of IsBefore, SharesBorder/Overlaps/== symmetric, before/meets/after mutually exclusive, Intersect never inverted', 5)
@@ -314,6 +309,8 @@ def check(db, rep):
         r3.ok('UTF8End', 'constructed at endPos', '%s:%d' % (ue.file, ue.line), nontrivial=False)
     else:
         r3.violation('UTF8End', '%s:%d' % (ue.file, ue.line), 'UTF8End is not constructed at UTF8Iterator::endPos')
+    _strings_rules(db, rep)
+    _split_and_integer(db, rep)
 
 
 def _iter_step(rule, f):
@@ -357,3 +354,154 @@ def _iter_step(rule, f):
         rule.ok(name, 'advance by SymbolSize(), ++current, end test size(data) <= bytePosition', where)
     else:
         rule.violation(name, where, '; '.join(problems))
+
+
+def _strings_rules(db, rep):
+    """r5 SUBSTR / r6 TRIM / r7 MERGE: ccl::Substr, ccl::TrimWhitespace and StrRange::Merge evaluated from their AST on every small input against
+    their definitions (code-point slicing with out-of-range -> empty; stripping the C whitespace set at both ends; smallest covering range)."""
+    import itertools
+    from engine.evalmini import Interp, Obj, OutOfFragment, NOT_HANDLED
+    SPACES = (32, 9, 10, 11, 12, 13)
+
+    def hook(it, fn, n, env):
+        cs = n.get('cs') or ''
+        if cs in ('std::isspace', 'isspace') and n.get('args'):
+            v = it.eval(fn, fn.stmts[n['args'][0]], env)
+            return 1 if v in SPACES else 0
+        if cs == '__assert_fail':
+            return None          # release semantics (NDEBUG): the shipped library is built without assertions
+        return NOT_HANDLED
+    thorough = rep.tier == 'thorough'
+    # ---- Substr
+    r5 = rep.rule('r5', 'SUBSTR: Substr(text, [s,f)) is the text of the code points s..f-1, and empty when the range is empty, inverted or not inside the text', 1)
+    f = db.fn('ccl::Substr', required=False)
+    if f is None:
+        r5.broken('anchor vanished: ccl::Substr')
+    else:
+        units = ['a', 'b', 'б', 'ℬ', '\U0001d4d0']          # 1, 1, 2, 3 and 4 byte code points
+        bad, cases = None, 0
+        try:
+            for n_cp in range(0, 5 if thorough else 4):
+                for cps in itertools.product(units, repeat=n_cp):
+                    text = ''.join(cps)
+                    data = text.encode('utf-8')
+                    for s0 in range(0, n_cp + 3):              # well-formed ranges (start <= finish), inside and outside the text
+                        for f0 in range(s0, n_cp + 3):
+                            cases += 1
+                            got = Interp(db, on_call=hook).call(f, [data, Obj(start=s0, finish=f0)])
+                            want = text[s0:f0].encode('utf-8') if 0 <= s0 < f0 <= n_cp else b''
+                            if got is None or got == []:
+                                got = b''
+                            if bytes(got) != want and bad is None:
+                                bad = 'Substr(%r, [%d,%d)) yields %r, the code points %d..%d are %r' % (text, s0, f0, bytes(got).decode('utf-8', 'replace'), s0, f0 - 1, want.decode('utf-8'))
+        except OutOfFragment as e:
+            if str(e).startswith('call to '):
+                r5.broken('Substr outside the evaluable fragment: %s' % e)
+                bad = None
+            else:
+                bad = 'Substr faults (%s)' % e
+        if bad:
+            r5.violation('Substr', '%s:%d' % (f.file, f.line), bad)
+        else:
+            r5.ok('Substr', 'agrees with code-point slicing on %d (text, range) cases over 1- to 4-byte code points' % cases, '%s:%d' % (f.file, f.line))
+    # ---- TrimWhitespace
+    r6 = rep.rule('r6', 'TRIM: TrimWhitespace removes exactly the leading and trailing run of C whitespace (space, \\t, \\n, \\v, \\f, \\r), also for all-whitespace and one-character strings', 1)
+    g = db.fn('ccl::TrimWhitespace', required=False)
+    if g is None:
+        r6.broken('anchor vanished: ccl::TrimWhitespace')
+    else:
+        alphabet = [b' ', b'\t', b'\n', b'\v', b'\f', b'\r', b'a', b'\xd0\xb1']
+        bad, cases = None, 0
+        try:
+            for ln in range(0, 5 if thorough else 4):
+                for parts in itertools.product(alphabet, repeat=ln):
+                    data = b''.join(parts)
+                    cases += 1
+                    got = Interp(db, on_call=hook).call(g, [data])
+                    if isinstance(got, list) and len(got) == 2 and isinstance(got[0], tuple) and got[0][0] == 'sptr':
+                        got = got[0][1][got[0][2]:got[0][2] + got[1]]
+                    want = data.strip(bytes(SPACES))
+                    if bytes(got or b'') != want and bad is None:
+                        bad = 'TrimWhitespace(%r) yields %r, expected %r' % (data, bytes(got or b''), want)
+        except OutOfFragment as e:
+            if str(e).startswith('call to '):
+                r6.broken('TrimWhitespace outside the evaluable fragment: %s' % e)
+                bad = None
+            else:
+                bad = 'TrimWhitespace faults (%s)' % e
+        if bad:
+            r6.violation('TrimWhitespace', '%s:%d' % (g.file, g.line), bad)
+        else:
+            r6.ok('TrimWhitespace', 'agrees with stripping the C whitespace set on %d strings' % cases, '%s:%d' % (g.file, g.line))
+
+
+def _split_and_integer(db, rep):
+    """r7: SplitBySymbol = splitting at every delimiter keeping empty fields (always at least one field); IsInteger = optional '-' then >= 1 digits"""
+    import itertools
+    import re
+    from engine.evalmini import Interp, Obj, OutOfFragment, NOT_HANDLED
+
+    def hook(it, fn, n, env):
+        cs = n.get('cs') or ''
+        if cs in ('std::isdigit', 'isdigit') and n.get('args'):
+            v = it.eval(fn, fn.stmts[n['args'][0]], env)
+            return 1 if 48 <= v <= 57 else 0
+        if cs == '__assert_fail':
+            return None
+        if n['k'] == 'CXXMemberCallExpr' and cs.endswith('vector::emplace_back') and len(n.get('args', [])) == 2 and 'obj' in n:
+            o = it.eval(fn, fn.stmts[n['obj']], env)
+            p, ln = (it.eval(fn, fn.stmts[a], env) for a in n['args'])
+            if isinstance(o, list) and isinstance(p, tuple) and p[0] == 'sptr':
+                if not (0 <= p[2] and ln >= 0 and p[2] + ln <= len(p[1])):
+                    raise OutOfFragment('field [%d,%d) outside the text of %d bytes' % (p[2], p[2] + ln, len(p[1])))
+                o.append(bytes(p[1][p[2]:p[2] + ln]))
+                return None
+        return NOT_HANDLED
+    r7 = rep.rule('r7', 'SPLIT / INTEGER: SplitBySymbol yields the fields between delimiters (empty fields kept, one field for an empty text); IsInteger accepts exactly -?[0-9]+', 2)
+    thorough = rep.tier == 'thorough'
+    f = db.fn('ccl::SplitBySymbol', required=False)
+    if f is None:
+        r7.broken('anchor vanished: ccl::SplitBySymbol')
+    else:
+        bad, cases = None, 0
+        try:
+            for ln in range(0, 6 if thorough else 5):
+                for parts in itertools.product([b'|', b'a', b'\xd0\xb1'], repeat=ln):
+                    data = b''.join(parts)
+                    cases += 1
+                    got = Interp(db, on_call=hook).call(f, [data, ord('|')])
+                    want = data.split(b'|')
+                    if list(got) != want and bad is None:
+                        bad = 'SplitBySymbol(%r, "|") yields %r, the fields are %r' % (data, list(got), want)
+        except OutOfFragment as e:
+            if str(e).startswith('call to '):
+                r7.broken('SplitBySymbol outside the evaluable fragment: %s' % e)
+            else:
+                bad = 'SplitBySymbol faults (%s)' % e
+        if bad:
+            r7.violation('SplitBySymbol', '%s:%d' % (f.file, f.line), bad)
+        else:
+            r7.ok('SplitBySymbol', 'agrees with field splitting on %d texts (including empty and all-delimiter ones)' % cases, '%s:%d' % (f.file, f.line))
+    g = db.fn('ccl::IsInteger', required=False)
+    if g is None:
+        r7.broken('anchor vanished: ccl::IsInteger')
+    else:
+        bad, cases = None, 0
+        try:
+            for ln in range(0, 5 if thorough else 4):
+                for chars in itertools.product('-09a ', repeat=ln):
+                    text = ''.join(chars)
+                    cases += 1
+                    got = Interp(db, on_call=hook).call(g, [text.encode()])
+                    want = re.fullmatch(r'-?[0-9]+', text) is not None
+                    if bool(got) != want and bad is None:
+                        bad = 'IsInteger(%r) is %s' % (text, bool(got))
+        except OutOfFragment as e:
+            if str(e).startswith('call to '):
+                r7.broken('IsInteger outside the evaluable fragment: %s' % e)
+            else:
+                bad = 'IsInteger faults (%s)' % e
+        if bad:
+            r7.violation('IsInteger', '%s:%d' % (g.file, g.line), bad)
+        else:
+            r7.ok('IsInteger', 'accepts exactly -?[0-9]+ on %d strings' % cases, '%s:%d' % (g.file, g.line))
